@@ -17,7 +17,7 @@ META = {
         note="Trusted: urllib.parse.urljoin/urldefrag; CPython generator finalisation.",
         technique="static analysis: typestate/pairing on CFG with close edges, reaching definitions, provenance", ref="5/C02"),
     "C03": dict(
-        text="Abstract interpretation over a JSON-kind lattice with exception effects: for each (draft, keyword, function), under the value shapes the bundled metaschema admits (computed from the metaschema data) and any JSON instance, no operation can raise anything but the documented exceptions. Known findings are listed individually.",
+        text="Abstract interpretation over a JSON-kind lattice with exception effects: for each (draft, keyword, function), under the value shapes the bundled metaschema admits (computed from the metaschema data) and any JSON instance, no operation can raise anything but the documented exceptions; no message is built with data in the template position of % / format; no applicator asks for the verdict of the same (part, subschema) pair twice in one call (exponential nesting cost); push/pop pairing (a pop that was never pushed empties the scope stack). Known findings are listed individually.",
         note="Trusted: the operation model (Appendix C) and callee exception model (4.3); regexes compile and $ref values are strings (property's provisos); recursion depth / cyclic $ref not modelled.",
         technique="static analysis: abstract interpretation (kind lattice + exception effects), interprocedural by inlining", ref="5/C03"),
     "C04": dict(
@@ -33,11 +33,11 @@ META = {
         note="Trusted: collections.deque semantics.",
         technique="static analysis: symbolic provenance terms over loop targets (def-use)", ref="5/C06"),
     "C07": dict(
-        text="Static: effect/alias analysis shows no validation-reachable function mutates anything reachable from instance/schema/keyword values/documents or any validator/checker field; typestate over the CFG (with exception and generator-close edges) shows every scope push is undone on every exit; the store is written only with a retrieved document, under the requested URI, outside handlers; caches are only called and nothing memoised reads the scope stack; store keys are no coarser than URI-minus-empty-fragment. Not decided: prompt finalisation of abandoned generators (assumed), concrete history equivalence.",
+        text="Static: effect/alias analysis shows no validation-reachable function mutates anything reachable from instance/schema/keyword values/documents or any validator/checker field; typestate over the CFG (with exception and generator-close edges) shows every scope push is undone on every exit; the store is written only with a retrieved document, under the requested URI, outside handlers; caches are only called and nothing memoised reads the scope stack; an error iterator created inside an entered scope is consumed inside it; store keys are no coarser than URI-minus-empty-fragment. Not decided: prompt finalisation of abandoned generators (assumed), concrete history equivalence.",
         note="Trusted: CPython reference-counting finalisation of generators; lru_cache does not cache exceptions.",
         technique="static analysis: write-effect/alias analysis over the call graph, typestate on CFG", ref="5/C07"),
     "C08": dict(
-        text="Static: const/enum/uniqueItems relate instance-derived and schema-derived values only through the one normaliser (or under a path condition excluding every value the normaliser changes); the normaliser separates booleans from numbers (abstract evaluation over value classes); the relation is applied at every depth; member-wise code never substitutes a JSON value for an absent member nor truncates. Not decided: numeric equality of Python == (language semantics).",
+        text="Static: const/enum/uniqueItems relate instance-derived and schema-derived values only through the one normaliser (or under a path condition excluding every value the normaliser changes); the normaliser separates booleans from numbers (abstract evaluation over value classes); the relation is applied at every depth; member-wise code never substitutes a JSON value for an absent member nor truncates; const/enum/uniqueItems evaluated on every pair of a 76-value table (incl. dict/list subclasses) against reference JSON equality. Not decided: numeric equality of Python == (language semantics).",
         note="Trusted: Python == on int/float/str/list/dict.",
         technique="static analysis: taint/provenance of comparison operands, abstract evaluation of the normaliser", ref="5/C08"),
     "C09": dict(
@@ -57,7 +57,7 @@ META = {
         note="Trusted: none beyond Python semantics; is_uri_template note when uritemplate absent.",
         technique="static analysis: CFG must-pass-through, handler-shape rules", ref="5/C12"),
     "C13": dict(
-        text="Static: each built-in checker's `raises` covers everything its delegate can raise on arbitrary strings (callee exception model); results on the string path are verdict-truthy; no checker delegates bare to a parser known to accept a strict superset of its grammar; the email verdict is evaluated over the three positions of the first @. Not decided: exactness of stdlib grammars.",
+        text="Static: each built-in checker's `raises` covers everything its delegate can raise on arbitrary strings (callee exception model); results on the string path are verdict-truthy; no checker delegates bare to a parser known to accept a strict superset of its grammar; the email verdict is evaluated over the three positions of the first @; regex pre-filters that lead straight to `return False` are compared with the format's grammar as regular languages (NFAs built from the regex syntax trees, product emptiness / inclusion, shortest witness). Not decided: exactness of stdlib grammars.",
         note="Trusted: callee exception/grammar model of ipaddress, datetime, re, idna (4.3).",
         technique="static analysis: exception-effect containment against a callee model", ref="5/C13"),
     "C14": dict(
@@ -102,7 +102,7 @@ TOKEVAL = {
     "C10": "dispatcher evaluated: $ref alone, in any key order",
     "C11": "type predicates over value classes",
     "C12": "FormatChecker.check/conforms/registration evaluated with recording stub checkers",
-    "C13": "-",
+    "C13": "-  (regex automata in sa/relang.py instead)",
     "C14": "fallback only: resolve_fragment against an RFC 6901 reference on 38 fragments when the ordering analysis cannot extract the pipeline",
     "C15": "RefResolver retrieval, caching and construction evaluated with recording handlers; URIDict",
     "C16": "create/extend/validates evaluated (copies, forwarding, registration)",
@@ -115,7 +115,7 @@ TOKEVAL = {
 
 def main():
     for pid, what in TOKEVAL.items():
-        if what != "-" and pid in META:
+        if not what.startswith("-") and pid in META:
             META[pid]["technique"] += "; abstract evaluation of the functions' AST by a definitional interpreter over scenario tables (sa/tokeval.py): " + what
     checks = []
     na = []
